@@ -52,11 +52,14 @@ OPEN_STATEMENTS = [
     'Q U^dagger = D resp. V Q U^dagger = (D | 0), |D_ii| = 1, D the returned diagonal.  Not formalised: unitarity of V as a '
     'separate statement (row orthonormality of V Q is proved), the case m = n of givens_decomposition (left stage only), and the '
     'exact-regime hypothesis itself, which the driver evaluates per input (op c11.hypotheses) rather than deriving it.',
-    'gaussian_reconstruct (V W U^dagger = (0|D)) : not proved; FALSE on the real code when the left N x N block of W is '
-    'singular (known finding F11, kernel-checked counterexample on the Model); open for a non-singular left block.  The hypothesis '
-    'a proof needs is stronger than non-singularity of the input: at every particle-hole step the pivot current[k/2, N-1] must be '
-    'non-zero exactly when the row still has weight in the left block (F11 is its failure); measured on weak-pairing inputs, the '
-    'thresholded code additionally loses accuracy ~ EQ_TOLERANCE x condition number there.  Not attempted in this round.',
+    'gaussian_reconstruct (V W U^dagger = (0|D)): not proved.  FALSE on the real code for inputs on which the pivot hypothesis '
+    'gaussAllPivots fails (known finding F11, kernel-checked instance test_pivot_hypothesis_fails_on_F11).  The hypothesis '
+    '"all N particle-hole pivots are non-zero" is a decidable predicate evaluated by the driver and, from the returned pht count, on '
+    'the implementation output; the harness enforces the reconstruction as a hard oracle whenever it holds (also for singular '
+    'left blocks).  Named gap of the proof: after the sweep the right block is diagonal (needs the canonical constraints to be '
+    'propagated through the double rotations).',
+    'm = n case of givens_decomposition and unitarity of the returned left_unitary: proved (givens_square_case_product, '
+    'givens_left_unitary_is_unitary).',
     'givens_matrix_elements_sound is stated in the exact regime (entries / imaginary parts below EQ_TOLERANCE are exactly 0); '
     'behaviour for 0 < |x| < 1e-8 is outside the theorem.',
 ]
@@ -482,6 +485,9 @@ def check_cases(ctx, stream, cases):
                 specs = [rq]
             else:
                 bad, val, specs = oracle_gauss(of, Mnp, WEAK_TOL if c['kind'] == 'weak' else TOL)
+                # pivot hypothesis (Lean: gaussAllPivots): all N particle-hole pivots were non-zero
+                case['all_pivots_nonzero'] = sum(1 for l in val[0] for o in l if isinstance(o, str)) == Mnp.shape[0]
+                stream.count('gauss-pivot-hypothesis:%s' % case['all_pivots_nonzero'])
             impl_err = None
         except ValueError:
             impl_err = 'ValueError'
@@ -1016,7 +1022,8 @@ F11_WITNESS = [[ZERO, ZERO, ZERO, ONE], [ZERO, ZERO, ONE, ZERO]]
 def classify(v):
     """F11: fermionic_gaussian_decomposition on an admissible W whose left N x N block is singular"""
     inp = v.get('input', {})
-    if inp.get('fn') == 'gauss' and inp.get('left_block_singular') is True and v.get('what', '').startswith('gauss: '):
+    if (inp.get('fn') == 'gauss' and inp.get('left_block_singular') is True and inp.get('all_pivots_nonzero') is not True
+            and v.get('what', '').startswith('gauss: ')):
         return 'F11'
     return None
 
